@@ -495,6 +495,9 @@ func c15RandReq(r *h.Rand, rid, conn int, server bool) c15Req {
 	cnt := 0
 	for i := 0; i < n; i++ {
 		it := c09Item{Op: c09OpGet, Pl: 2}
+		if r.Chance(1, 4) {
+			it.Ext = 1 // a non-critical message extension on the item: no bearing on the placeholder
+		}
 		sc := &c09Script{Out: c09Out{K: 1, RP: -1}}
 		na := r.Intn(4)
 		for k := 0; k < na; k++ {
